@@ -28,6 +28,10 @@ structure Topo where
   nc : Nat
   pus : Nat → Nat
   socks : List Nat
+  /-- hwloc reports no core objects: `get_number_of_cores` then counts the PUs (every "core" has one
+      PU), but `init_core_affinity_mask_from_core` finds no object (`use_pus_as_cores_` is never set)
+      and returns an empty mask — only the command-line layer (`Model/AffCmd.lean`) looks at this -/
+  noCoreObjs : Bool := false
 
 /-- logical index of the first PU of core `c` -/
 def base (t : Topo) (c : Nat) : Nat := sumTo c t.pus
